@@ -73,6 +73,11 @@ MUTANTS = [
     ('polynomial.py', "while p1 < len(fl1) or p2 < len(fl2):", "while p1 < len(fl1) and p2 < len(fl2):", 'poly', 'post __mul__'),
     ('polynomial.py', "if f2 is None or (f1 is not None and f1 < f2):", "if f2 is None or (f1 is not None and f1 > f2):", 'poly', 'pass'),   # misses common factors, same value
     ('polynomial.py', "(ea is not None and ea < eb)", "(ea is not None and ea <= eb)", 'poly', 'pass'),       # equivalent: ties may go either way
+    ('multivector.py', "                cosh = np.cosh\n", "                cosh = np.cos\n", 'exp', 'exp, s > 0'),
+    ('multivector.py', "sinhc = lambda x: np.sinc(x / np.pi)", "sinhc = lambda x: np.sinc(x)", 'exp', 'exp, s < 0'),
+    ('multivector.py', "elif isinstance(ll, (float, int)) and ll > 0:", "elif isinstance(ll, (float, int)) and ll >= 0:", 'exp', 'exp, s == 0'),
+    ('multivector.py', "        if ll.grades and ll.grades != (0,):", "        if False:", 'exp', 'raises NotImplementedError'),
+    ('multivector.py', "        return self * sinhc(l) + cosh(l)", "        c = cosh(l)\n        return c + self * sinhc(l)", 'exp', 'pass'),
     # ---- harmless refactorings: must stay green (no VIOLATION); out-of-subset is acceptable (undecided), refutation is a false alarm
     ('codegen.py', "            termstr = vx * vy if sign > 0 else (- vx * vy)\n            if key_out in res:\n                res[key_out] += termstr\n            else:\n                res[key_out] = termstr",
      "            term = vx * vy if sign > 0 else (- vx * vy)\n            if key_out not in res:\n                res[key_out] = term\n            else:\n                res[key_out] = res[key_out] + term", 'codegen', 'pass'),
@@ -116,6 +121,9 @@ def build_group(H, group):
         AC.vc_new(H)
     elif group == 'tape':
         T.vc_tape_operators(H)
+    elif group == 'exp':
+        from contracts import misc_c as MC
+        MC.vc_exp(H)
     elif group == 'compose':
         U.vc_compositions(H)
     elif group == 'poly':
